@@ -98,6 +98,11 @@ def planted(task):
                 if task["where"] in ("local", "both"):
                     with open(drv.expected_local_path(m), "wb") as f:
                         f.write(state)
+                    if k % 5 == 3:   # the clock of the host that was writing ran ahead (or ours was set back since): the remains carry a FUTURE file time
+                        ahead = __import__("time").time() + (3600, 60, 86400 * 400)[k % 3]
+                        os.utime(drv.expected_local_path(m), (ahead, ahead))
+                    elif k % 5 == 1:   # ... or they are years old
+                        os.utime(drv.expected_local_path(m), (1262304000, 1262304000))
                 else:
                     lp = drv.local_path(m)
                     if lp:
